@@ -62,11 +62,17 @@ def simp_deref(e):
 
 
 class Walker:
-    def __init__(self, fn, facts=None, keep_env=False, depth=0):
+    def __init__(self, fn, facts=None, keep_env=False, depth=0, canon=False):
         self.fn = fn
         self.facts = facts
         self.keep_env = keep_env
         self.depth = depth
+        self.canon = canon
+        self.inline_all = False      # summary mode: see through every small workspace function, not only new ones
+        self.models = None
+        if canon:
+            from .canon import Models
+            self.models = Models(self)
         self.paths = []
         self.npaths = 0
 
@@ -194,7 +200,11 @@ class Walker:
                 return ("len", self.op_expr(rv["a"], env, fenv))
             return ("unop", rv["op"], self.op_expr(rv["a"], env, fenv))
         if k == "cast":
-            return ("cast", rv["kind"], self.op_expr(rv["a"], env, fenv), rv["ty"]["s"])
+            a = rv["a"]
+            src = None
+            if a.get("k") in ("copy", "move") and not a["place"]["p"]:
+                src = self.fn.locals[a["place"]["l"]]["ty"].get("s")
+            return ("cast", rv["kind"], self.op_expr(a, env, fenv), rv["ty"]["s"], src)
         if k == "discr":
             return ("discr", self.place_expr(rv["place"], env, fenv))
         if k == "agg":
@@ -297,6 +307,24 @@ class Walker:
                     ce = ("call", t["fn"], t["full"], args, (fn.id, bi))
                 else:
                     ce = ("call", None, t.get("fnty"), (self.op_expr(t["fnop"], env, fenv),) + args, (fn.id, bi))
+                if self.canon and t.get("fn"):
+                    outs = self.models.model(t["fn"], t.get("full"), args, ce, (fn.id, bi), known)
+                    if outs is not None:
+                        for o in outs:
+                            c2 = conds + [(c[0], c[1], bi) for c in o.conds]
+                            ev2 = list(events) + list(o.events)
+                            k2 = dict(known)
+                            k2.update(o.known)
+                            if o.end != "return" or o.value is None:
+                                self._finish(c2, ev2, None, o.end if o.end != "return" else "diverge", blocks, env, fenv)
+                                continue
+                            env2, fenv2 = dict(env), dict(fenv)
+                            self.assign(t["dest"], o.value, env2, fenv2, ev2, bi)
+                            if t["target"] is None:
+                                self._finish(c2, ev2, None, "diverge", blocks, env2, fenv2)
+                            else:
+                                self._walk(t["target"], env2, fenv2, c2, ev2, k2, blocks, onpath)
+                        return
                 inl = self.inline_candidate(t)
                 clo_map = None
                 if inl is None:
@@ -305,12 +333,27 @@ class Walker:
                     if clo_map is not None:
                         inl = clo_map[0]
                 if inl is not None:
-                    qs = self.facts.inline_paths(inl, self.depth)
+                    qs = self.facts.inline_paths(inl, self.depth, canon=self.canon, inline_all=self.inline_all)
                     if qs is not None:
                         mapping = clo_map[1] if clo_map is not None else {("param", i + 1): a for i, a in enumerate(args)}
+                        gmap = self.generic_map(t, inl) if (self.inline_all and clo_map is None) else None
                         for q in qs:
+                            if gmap:
+                                q = subst_generics_path(q, gmap)      # callee's own parameter names -> the call's arguments
                             q2 = subst_path(q, mapping, bi, site=(fn.id, bi))
-                            ev2 = list(events) + [("inlined", inl, args, bi)] + q2.events
+                            if self.canon:
+                                from .canon import simplify_path
+                                q2 = simplify_path(q2, known)
+                                if q2 is None:
+                                    continue
+                            inst = None
+                            if self.inline_all and clo_map is None:
+                                # instantiate the callee's generic parameters with the call's arguments where the mapping is
+                                # known (a direct call of the inlined function itself); otherwise remember the instantiation
+                                if gmap is None:
+                                    from .canonsum import concrete_instantiation
+                                    inst = concrete_instantiation(t.get("full"), inl)
+                            ev2 = list(events) + [("inlined", inl, args, bi, inst)] + q2.events
                             c2 = conds + q2.conds
                             if q2.end != "return":
                                 self._finish(c2, ev2, None, q2.end, blocks, env, fenv)
@@ -373,11 +416,20 @@ class Walker:
                     self._walk(at, dict(env), dict(fenv), conds + [(d, av, bi)], list(events), k2, blocks, onpath)
                 # otherwise
                 ov = frozenset(vals) | excluded
+                rest = self.remaining_variants(b, t, ov) if self.canon else None
+                if rest is not None and len(rest) == 0:
+                    return          # every variant of the enum has its own arm: the catch-all is dead
                 if self.otherwise_feasible(d, t, ov):
                     k2 = dict(known)
-                    k2[d] = ("ne", ov)
-                    self._walk(t["otherwise"], dict(env), dict(fenv), conds + [(d, ("not", tuple(sorted(ov))), bi)],
-                               list(events), k2, blocks, onpath)
+                    only = rest[0] if (rest is not None and len(rest) == 1) else None
+                    if only is not None:
+                        # canonical mode: "not any of the other variants" of a known enum is "is the remaining one"
+                        k2[d] = ("eq", only)
+                        self._walk(t["otherwise"], dict(env), dict(fenv), conds + [(d, only, bi)], list(events), k2, blocks, onpath)
+                    else:
+                        k2[d] = ("ne", ov)
+                        self._walk(t["otherwise"], dict(env), dict(fenv), conds + [(d, ("not", tuple(sorted(ov))), bi)],
+                                   list(events), k2, blocks, onpath)
                 return
             # other terminators (resume etc.)
             self._finish(conds, events, None, "diverge", blocks, env, fenv)
@@ -385,13 +437,36 @@ class Walker:
 
     def inline_candidate(self, t):
         F = self.facts
-        if F is None or not t.get("fn") or getattr(F, "known_fn_ids", None) is None:
+        if F is None or not t.get("fn") or (getattr(F, "known_fn_ids", None) is None and not self.inline_all):
             return None
         res = t.get("res") or {}
         for fid in (res.get("def"), t.get("fn")):
             if fid and fid != self.fn.id and F.is_new_fn(fid):
                 return fid
+            if self.inline_all and fid and fid != self.fn.id:
+                g = F.fns.get(fid)
+                if g is not None and not g.is_closure:
+                    return fid
         return None
+
+    def generic_map(self, t, inl):
+        """{callee type/const parameter name: argument text} for a direct call of `inl`, None when unknown"""
+        F = self.facts
+        g = F.fns.get(inl) if F is not None else None
+        if g is None or t.get("fn") != inl or t.get("res"):
+            return None
+        names = g.j.get("generics")
+        targs = t.get("targs")
+        if names is None or targs is None or len(names) != len(targs):
+            return None
+        m = {}
+        for n, a in zip(names, targs):
+            txt = a.get("s") if isinstance(a, dict) else None
+            if txt is None:
+                return None
+            if txt != n:
+                m[n] = txt
+        return m
 
     def local_closure_call(self, t, args):
         """(closure fn id, parameter mapping) when the call is Fn::call / FnMut::call_mut / FnOnce::call_once on a
@@ -482,6 +557,56 @@ class Walker:
     def variant_count(self, e):
         return None
 
+    def place_ty(self, pl):
+        """type string of a MIR place (local type followed through deref / field projections), or None"""
+        ty = self.fn.locals[pl["l"]]["ty"].get("s", "")
+        for e in pl["p"]:
+            if e == "deref":
+                for pre in ("&mut ", "&"):
+                    if ty.startswith(pre):
+                        ty = ty[len(pre):]
+                        break
+                else:
+                    if ty.startswith("std::boxed::Box<"):
+                        ty = ty[len("std::boxed::Box<"):-1]
+                    else:
+                        return None
+                if ty.startswith("'"):
+                    ty = ty.split(" ", 1)[-1]
+                    if ty.startswith("mut "):
+                        ty = ty[4:]
+            elif isinstance(e, dict) and "f" in e:
+                ty = e.get("ty") or ""
+            elif isinstance(e, dict) and "dc" in e:
+                return None
+            else:
+                return None
+        return ty
+
+    def remaining_variants(self, b, t, ov):
+        """the discriminant values left for the otherwise branch of a switch on `discriminant(place)` of a known enum (None: unknown)"""
+        op = t.get("discr") or {}
+        if op.get("k") not in ("copy", "move") or op["place"]["p"]:
+            return None
+        l = op["place"]["l"]
+        pl = None
+        for st in b["stmts"]:
+            if st["k"] == "assign" and not st["lhs"]["p"] and st["lhs"]["l"] == l and st["rv"]["k"] == "discr":
+                pl = st["rv"]["place"]
+        if pl is None:
+            return None
+        ty = self.place_ty(pl)
+        if not ty:
+            return None
+        head = ty.split("<", 1)[0]
+        adt = STD_ADTS.get(head) or (self.facts.adts.get(head) if self.facts is not None else None)
+        if not adt:
+            return None
+        vals = [v.get("discr") for v in adt["variants"]]
+        if any(v is None for v in vals):
+            return None
+        return [v for v in vals if v not in ov]
+
 
 STD_ADTS = {
     "std::result::Result": {"variants": [{"name": "Ok", "discr": 0}, {"name": "Err", "discr": 1}]},
@@ -492,7 +617,7 @@ STD_ADTS = {
 
 
 def walk(fn, facts=None, **kw):
-    w = Walker(fn, facts, keep_env=kw.pop("keep_env", False))
+    w = Walker(fn, facts, keep_env=kw.pop("keep_env", False), canon=kw.pop("canon", False))
     return w.run(**kw)
 
 
@@ -660,11 +785,47 @@ def subst_path(p, mapping, at_block=None, site=None):
         elif e[0] == "assert":
             ev.append(("assert", e[1], subst_params(e[2], mapping, memo), e[3], tuple(subst_params(o, mapping, memo) for o in e[4]), at_block if at_block is not None else e[5]))
         elif e[0] == "inlined":
-            ev.append(("inlined", e[1], tuple(subst_params(a, mapping, memo) for a in e[2]), at_block if at_block is not None else e[3]))
+            ev.append(("inlined", e[1], tuple(subst_params(a, mapping, memo) for a in e[2]), at_block if at_block is not None else e[3]) + tuple(e[4:]))
         else:
             ev.append(e)
     return Path([(subst_params(c[0], mapping, memo), c[1], at_block if at_block is not None else c[2]) for c in p.conds], ev,
                 subst_params(p.ret, mapping, memo) if p.ret is not None else None, p.end, p.blocks)
+
+
+def subst_generics(e, gmap, rx, memo):
+    """replace the bare type/const parameter names of an inlined callee by the caller's arguments in every type-bearing text"""
+    if not isinstance(e, tuple) or not e:
+        return e
+    k = id(e)
+    if k in memo:
+        return memo[k]
+    sub = lambda s: rx.sub(lambda m: gmap[m.group(0)], s) if isinstance(s, str) else s
+    t = e[0]
+    if t == "call":
+        r = ("call", e[1], sub(e[2]), tuple(subst_generics(a, gmap, rx, memo) for a in e[3]), e[4])
+    elif t == "const":
+        r = ("const", sub(e[1]), sub(e[2]), e[3])
+    elif t == "fnitem":
+        r = ("fnitem", e[1], sub(e[2]), e[3])
+    elif t == "cast":
+        r = ("cast", e[1], subst_generics(e[2], gmap, rx, memo), sub(e[3])) + tuple(sub(x) for x in e[4:])
+    elif t in ("param", "upvar", "cparam", "unknown"):
+        r = e
+    else:
+        r = tuple(subst_generics(x, gmap, rx, memo) if isinstance(x, tuple) else x for x in e)
+    memo[k] = r
+    return r
+
+
+def subst_generics_path(p, gmap):
+    import re
+    rx = re.compile(r"(?<![:\w'])(?:%s)(?![\w])" % "|".join(sorted((re.escape(n) for n in gmap), key=len, reverse=True)))
+    memo = {}
+    ev = []
+    for e in p.events:
+        ev.append(tuple(subst_generics(x, gmap, rx, memo) if isinstance(x, tuple) else x for x in e))
+    return Path([(subst_generics(c[0], gmap, rx, memo), c[1], c[2]) for c in p.conds], ev,
+                subst_generics(p.ret, gmap, rx, memo) if p.ret is not None else None, p.end, p.blocks, p.env, p.fieldenv)
 
 
 def strip_refs(e):
@@ -691,6 +852,8 @@ def subst_params(e, mapping, memo=None):
         b = subst_params(e[1], mapping, memo)
         if b[0] == "agg" and isinstance(e[2], int) and e[2] < len(b[3]) and b[1] in ("tuple", "array"):
             r = b[3][e[2]]
+        elif b[0] == "agg" and b[1] == "adt" and isinstance(e[2], int) and e[2] < len(b[3]) and e[3] is not None and b[2].rsplit("::", 1)[-1] == e[3]:
+            r = b[3][e[2]]
         else:
             r = ("field", b, e[2], e[3])
     elif t == "deref":
@@ -704,7 +867,7 @@ def subst_params(e, mapping, memo=None):
     elif t == "unop":
         r = ("unop", e[1], subst_params(e[2], mapping, memo))
     elif t == "cast":
-        r = ("cast", e[1], subst_params(e[2], mapping, memo), e[3])
+        r = ("cast", e[1], subst_params(e[2], mapping, memo), e[3]) + tuple(e[4:])
     elif t == "agg":
         r = ("agg", e[1], e[2], tuple(subst_params(a, mapping, memo) for a in e[3]))
     elif t == "index":
